@@ -91,13 +91,13 @@ def refModule (H : Hier) (S : Setup) : RefReg :=
   S.moduleOps.foldl (fun ρ o => refRegisterOp H ρ o.op o.auto o.exact (knownTypesOf ρ.handlers))
     (refFresh H S true)
 
-/-- what the property promises about each kind of registry: the module registry and a *default*
-    Glommer are the module-level registry ("a default Glommer behaves like the module-level glom");
-    the others are what their constructor builds -/
+/-- the reference registry each kind starts from.  A Glommer starts from what its constructor
+    argument says and then — as ordinary `registerOp` actions at the head of its history, which
+    the driver derives from the *model's* module registry — learns every operation the registry it
+    is created from knows ("a default Glommer behaves like the module-level glom"). -/
 def refMk (H : Hier) (S : Setup) : RegKind → RefReg
   | .module => refModule H S
-  | .glommer true => refModule H S
-  | .glommer false => refFresh H S false
+  | .glommer d => refFresh H S d
   | .registry d => refFresh H S d
 
 def refStep (H : Hier) (w : List RefReg) : Action → List RefReg
@@ -159,14 +159,5 @@ def hierWF (H : Hier) (top : Ty) (U : List Ty) : Bool :=
         (!(H.inst c d && H.sub d e) || H.inst c e) &&
         (!((H.mro c).contains d && (H.mro c).contains e && H.sub e d && e != d) ||
           decide ((H.mro c).idxOf e < (H.mro c).idxOf d)))))
-
-/-- hypotheses on the *virtual* matches of one object type (see Props): the virtual types the
-    object is an instance of are pairwise unrelated, and none of them is a subtype of a real base
-    class other than the root -/
-def virtFlat (H : Hier) (top : Ty) (U : List Ty) (t : Ty) : Bool :=
-  U.all (fun v => !(H.inst t v && !(H.mro t).contains v) ||
-    U.all (fun w =>
-      (!(H.inst t w && !(H.mro t).contains w && H.sub v w) || v == w) &&
-      (!((H.mro t).contains w && H.sub v w) || w == top)))
 
 end Glom.C13
